@@ -49,6 +49,79 @@ def cls_of(name):
     return getattr(importlib.import_module("sparkx.flow." + name), name)
 
 
+# ------------------------------------------------------------------ call forms
+# Documented parameter order of the public API at HEAD (signatures / docstrings); REQ = no default.
+REQ = object()
+_EPSP_INIT = [("n", 2), ("weight", "pT2"), ("pseudorapidity_gap", 0.0)]
+_EPSP_INT = [("particle_data", REQ), ("particle_data_event_plane", REQ), ("self_corr", True)]
+_EPSP_DIFF = [("particle_data", REQ), ("bins", REQ), ("flow_as_function_of", REQ), ("particle_data_event_plane", REQ),
+              ("self_corr", True)]
+SIG = {
+    ("ReactionPlaneFlow", "__init__"): [("n", 2)],
+    ("ReactionPlaneFlow", "integrated_flow"): [("particle_data", REQ)],
+    ("ReactionPlaneFlow", "differential_flow"): [("particle_data", REQ), ("bins", REQ), ("flow_as_function_of", REQ)],
+    ("ScalarProductFlow", "__init__"): _EPSP_INIT, ("EventPlaneFlow", "__init__"): _EPSP_INIT,
+    ("ScalarProductFlow", "integrated_flow"): _EPSP_INT, ("EventPlaneFlow", "integrated_flow"): _EPSP_INT,
+    ("ScalarProductFlow", "differential_flow"): _EPSP_DIFF, ("EventPlaneFlow", "differential_flow"): _EPSP_DIFF,
+    ("QCumulantFlow", "__init__"): [("n", 2), ("k", 2), ("imaginary", "zero")],
+    ("QCumulantFlow", "integrated_flow"): [("particle_data", REQ)],
+    ("QCumulantFlow", "differential_flow"): [("particle_data", REQ), ("bins", REQ), ("flow_as_function_of", REQ), ("poi_pdg", None)],
+    ("LeeYangZeroFlow", "__init__"): [("vmin", REQ), ("vmax", REQ), ("vstep", REQ), ("n", 2)],
+    ("LeeYangZeroFlow", "differential_flow"): [("particle_data", REQ), ("bins", REQ), ("flow_as_function_of", REQ), ("poi_pdg", None)],
+    ("PCAFlow", "__init__"): [("n", 2), ("alpha", 2), ("number_subcalc", 4)],
+    ("PCAFlow", "differential_flow"): [("particle_data", REQ), ("bins", REQ), ("flow_as_function_of", REQ)],
+}
+FORM_COUNT = {}
+
+
+def bind(cls, method, vals, form):
+    """vals: values in documented order (may be shorter than the signature: the rest keep their defaults).
+    form = (npos, omit): the first npos arguments positional, the rest by keyword; omit = leave out arguments
+    whose value equals the documented default.  Returns (args, kwargs)."""
+    sig = SIG[(cls, method)]
+    npos, omit = form
+    args, kwargs = [], {}
+    positional = True
+    for i, (pname, default) in enumerate(sig):
+        if i >= len(vals):
+            break
+        v = vals[i]
+        is_default = default is not REQ and type(v) is type(default) and v == default
+        if default is None and v is None:
+            is_default = True
+        if omit and is_default:
+            positional = False  # everything after an omitted argument has to go by keyword
+            continue
+        if positional and i < npos:
+            args.append(v)
+        else:
+            positional = False
+            kwargs[pname] = v
+    return args, kwargs
+
+
+def form_for(*key):
+    """deterministic pseudo-random call form for a call (same call -> same form, so replays reproduce)"""
+    import zlib
+    h = zlib.crc32(repr(key).encode())
+    return (h % 7, bool((h >> 8) & 1))
+
+
+def api(obj, cls, method, vals, form=None):
+    """issue obj.method(...) in the given equivalent call form"""
+    form = form or form_for(cls, method, [v if isinstance(v, (int, float, str, bool, type(None))) else len(v) for v in vals])
+    args, kwargs = bind(cls, method, list(vals), form)
+    tag = ("pos" if not kwargs else "kw" if not args else "mixed") + ("/defaults-omitted" if form[1] else "")
+    FORM_COUNT[tag] = FORM_COUNT.get(tag, 0) + 1
+    return getattr(obj, method)(*args, **kwargs)
+
+
+def construct(cls, vals, form=None):
+    form = form or form_for(cls, "__init__", list(vals))
+    args, kwargs = bind(cls, "__init__", list(vals), form)
+    return cls_of(cls)(*args, **kwargs)
+
+
 POOL = {"on": False, "objs": {}, "history": []}
 
 
@@ -72,7 +145,9 @@ def new(name, *a, **k):
 
 def _new(name, *a, **k):
     if name == "LeeYangZeroFlow" and not a and not any(x in k for x in ("vmin", "vmax", "vstep")):
-        return cls_of(name)(0.01, 0.3, 0.01, **k)  # the three positional arguments have no defaults
+        return construct(name, (0.01, 0.3, 0.01)) if not k else cls_of(name)(0.01, 0.3, 0.01, **k)  # no defaults for these
+    if (name, "__init__") in SIG and not k:
+        return construct(name, a)
     return cls_of(name)(*a, **k)
 
 
@@ -365,7 +440,7 @@ def verify_unmodified(snap, name, method):
 def rp_i(f, evs):
     parts = mk(evs)
     snap = snapshot(dict(flow=parts))
-    r = f.integrated_flow(parts)
+    r = api(f, "ReactionPlaneFlow", "integrated_flow", [parts])
     verify_unmodified(snap, "ReactionPlaneFlow", "integrated_flow")
     return r
 
@@ -373,7 +448,7 @@ def rp_i(f, evs):
 def rp_d(f, evs, edges, sel):
     parts = mk(evs)
     snap = snapshot(dict(flow=parts))
-    r = f.differential_flow(parts, edges, sel)
+    r = api(f, "ReactionPlaneFlow", "differential_flow", [parts, edges, sel])
     verify_unmodified(snap, "ReactionPlaneFlow", "differential_flow")
     return r
 
@@ -386,10 +461,10 @@ def run_real(name, case, flow, ref, diff_edges=None):
     snap = snapshot(dict(flow=pf, reference=pr))
     with np.errstate(all="ignore"):
         if diff_edges is None:
-            r = f.integrated_flow(pf, pr, case["self_corr"])
+            r = api(f, name, "integrated_flow", [pf, pr, case["self_corr"]])
             verify_unmodified(snap, name, "integrated_flow")
             return (float(r[0]), float(r[1]))
-        r = f.differential_flow(pf, diff_edges, case["sel"], pr, case["self_corr"])
+        r = api(f, name, "differential_flow", [pf, diff_edges, case["sel"], pr, case["self_corr"]])
         verify_unmodified(snap, name, "differential_flow")
         return [(float(t[0]), float(t[1])) for t in r]
 
@@ -511,7 +586,7 @@ def _compare_phase1(op, case, pf, pr, out):
         f = new("ReactionPlaneFlow", n)
         try:
             with np.errstate(all="ignore"):
-                r = complex(f.integrated_flow(pf))
+                r = complex(api(f, "ReactionPlaneFlow", "integrated_flow", [pf]))
             real = "err" if not (math.isfinite(r.real) and math.isfinite(r.imag)) else r
         except ZeroDivisionError:
             real = "err"
@@ -523,7 +598,7 @@ def _compare_phase1(op, case, pf, pr, out):
         return None if abs(complex(a, b) - real) <= 1e-12 else f"code {real}, model {complex(a, b)}"
     if op == "rpd":
         f = new("ReactionPlaneFlow", n)
-        r = f.differential_flow(pf, case["edges"], case["sel"])
+        r = api(f, "ReactionPlaneFlow", "differential_flow", [pf, case["edges"], case["sel"]])
         if not out.startswith("ok"):
             return f"code {r}, model {out}"
         m = parse_pairs(out[3:])
@@ -553,7 +628,7 @@ def _compare_phase1(op, case, pf, pr, out):
     scale = s2_scale(name, pf, Q, wref, res)
     with np.errstate(all="ignore"):
         if op == "sp":
-            r = f.integrated_flow(pf, pr, case["self_corr"])
+            r = api(f, name, "integrated_flow", [pf, pr, case["self_corr"]])
             real = [(float(r[0]), float(r[1]))]
             if not out.startswith("ok "):
                 return f"code {real}, model {out}"
@@ -562,7 +637,7 @@ def _compare_phase1(op, case, pf, pr, out):
             if res_priv is not None and not vclose(t[2], res_priv, tol):
                 return f"resolution: code {res_priv!r}, model {t[2]!r}"
         else:
-            r = f.differential_flow(pf, case["edges"], case["sel"], pr, case["self_corr"])
+            r = api(f, name, "differential_flow", [pf, case["edges"], case["sel"], pr, case["self_corr"]])
             real = [(float(x[0]), float(x[1])) for x in r]
             if not out.startswith("ok"):
                 return f"code {real}, model {out}"
@@ -590,13 +665,13 @@ def _compare_ep(op, case, pf, pr, out):
     scale = s2_scale("EventPlaneFlow", pf, Q, wref, res)
     with np.errstate(all="ignore"):
         if op == "ep":
-            r = f.integrated_flow(pf, pr, case["self_corr"])
+            r = api(f, "EventPlaneFlow", "integrated_flow", [pf, pr, case["self_corr"]])
             real = [(float(r[0]), float(r[1]))]
             if not out.startswith("ok "):
                 return f"code {real}, model {out}"
             model = [tuple(h2f(x) for x in out.split()[1:3])]
         else:
-            r = f.differential_flow(pf, case["edges"], case["sel"], pr, case["self_corr"])
+            r = api(f, "EventPlaneFlow", "differential_flow", [pf, case["edges"], case["sel"], pr, case["self_corr"]])
             real = [(float(x[0]), float(x[1])) for x in r]
             if not out.startswith("ok"):
                 return f"code {real}, model {out}"
@@ -667,9 +742,9 @@ def _real_accepts(c, what, s, data):
         parts = mk(data)
         with np.errstate(all="ignore"):
             if c in ("EventPlaneFlow", "ScalarProductFlow"):
-                f.differential_flow(parts, [0.0, 1.0, 4.0], s, parts)
+                api(f, c, "differential_flow", [parts, [0.0, 1.0, 4.0], s, parts])
             else:
-                f.differential_flow(parts, [0.0, 1.0, 4.0], s)
+                api(f, c, "differential_flow", [parts, [0.0, 1.0, 4.0], s])
         return True
     except ValueError as e:
         if "flow_as_function_of must be" in str(e) or "Invalid weight" in str(e):
@@ -697,9 +772,9 @@ def oracle_tables():
                 parts = mk(data)
                 with np.errstate(all="ignore"):
                     if c in ("EventPlaneFlow", "ScalarProductFlow"):
-                        f.differential_flow(parts, [0.0, 1.0, 4.0], s, parts)
+                        api(f, c, "differential_flow", [parts, [0.0, 1.0, 4.0], s, parts])
                     else:
-                        f.differential_flow(parts, [0.0, 1.0, 4.0], s)
+                        api(f, c, "differential_flow", [parts, [0.0, 1.0, 4.0], s])
             except Exception as e:
                 out.append((f"selector-{c}-{s}", f"{c}().differential_flow(..., flow_as_function_of={s!r}) raises "
                             f"{type(e).__name__}: {str(e)[:120]}", dict(cls=c, selector=s, events=data, bins=[0.0, 1.0, 4.0])))
@@ -951,7 +1026,7 @@ def _check_qc(rel, case, aux):
         return None
     f = new("QCumulantFlow", n, k)
     with np.errstate(all="ignore"):
-        base = f.integrated_flow(mk(flow))
+        base = api(f, "QCumulantFlow", "integrated_flow", [mk(flow)])
         if not math.isfinite(float(base[0])) or abs(float(base[0])) < 1e-3:
             return None  # cumulant of the wrong sign / at the branch point: unstable by construction
         if rel == "bins":
@@ -960,20 +1035,20 @@ def _check_qc(rel, case, aux):
             if k == 6:
                 return None
             for bins1 in (aux["allbin"], tight_bin(flow, case["sel"])):
-                one = new("QCumulantFlow", n, k).differential_flow(mk(flow), bins1, case["sel"])
+                one = api(new("QCumulantFlow", n, k), "QCumulantFlow", "differential_flow", [mk(flow), bins1, case["sel"]])
                 if len(one) != 1 or len(one[0]) < 1 or not vclose(float(one[0][0]), float(base[0]), 1e-6):
                     return ("QCumulantFlow-single-bin", f"k={k}: differential flow over the single bin {bins1} containing "
                             f"every particle {one} != integrated {base}",
                             dict(expected=flat(base[0]), observed=flat(one), bins=bins1))
             return None
         f2, _ = transformed(rel, dict(case, same=True), flow, flow, aux)
-        got = new("QCumulantFlow", n, k).integrated_flow(mk(f2))
+        got = api(new("QCumulantFlow", n, k), "QCumulantFlow", "integrated_flow", [mk(f2)])
         if not _qc_close(base, got):
             return (f"QCumulantFlow-{rel}-integrated", f"k={k}: integrated (value, error) {got} after `{rel}`, before {base}",
                     dict(expected=flat(base), observed=flat(got)))
         if k < 6:
-            d0 = new("QCumulantFlow", n, k).differential_flow(mk(flow), aux["edges"], case["sel"])
-            d1 = new("QCumulantFlow", n, k).differential_flow(mk(f2), aux["edges"], case["sel"])
+            d0 = api(new("QCumulantFlow", n, k), "QCumulantFlow", "differential_flow", [mk(flow), aux["edges"], case["sel"]])
+            d1 = api(new("QCumulantFlow", n, k), "QCumulantFlow", "differential_flow", [mk(f2), aux["edges"], case["sel"]])
             stable = all(len(b) == 0 or (math.isfinite(float(b[0])) and abs(float(b[0])) > 1e-3) for b in d0)
             if stable and not _qc_close(d0, d1, 1e-5):
                 return (f"QCumulantFlow-{rel}-differential", f"k={k}: differential flow {d1} after `{rel}`, before {d0}",
@@ -1083,7 +1158,7 @@ def run_history(steps, stop_at_first=True):
       (2) the result must equal that of a FRESH estimator on a sample REBUILT from the mirror
                                                              -> key instance-reuse-<Estimator>-<method>_flow
     returns None or (key, what, detail) for the first failing call."""
-    ws, mirror, objs = {}, {}, {}
+    ws, mirror, objs, failed = {}, {}, {}, set()
     for i, st in enumerate(steps):
         op = st["op"]
         if op == "build":
@@ -1124,34 +1199,44 @@ def run_history(steps, stop_at_first=True):
             mirror[st["slot"]][st["event"]] = [
                 (r[0], r[1], r[2], r[3], (st["weights"][j] if j < len(st["weights"]) else r[4]))
                 for j, r in enumerate(mirror[st["slot"]][st["event"]])]
-        elif op == "call":
+        elif op in ("call", "bad-call"):
             name, ctor = st["est"], tuple(st["ctor"])
             key = (name, ctor)
+            cform = tuple(st["ctor_form"]) if st.get("ctor_form") else None
             if key not in objs:
-                objs[key] = _new(name, *ctor)
+                objs[key] = construct(name, ctor, cform)
             fs, rs = st["flow"], st.get("ref") or st["flow"]
             flow, ref = ws[fs], ws[rs]
             cf = _rebuild(mirror[fs])
             cr = cf if rs == fs else _rebuild(mirror[rs])
             method = st["method"] + "_flow"
+            fault = st.get("fault")
+            form = tuple(st["form"]) if st.get("form") else None
 
-            def do(obj, a, b):
-                with np.errstate(all="ignore"):
-                    try:
-                        if name == "ReactionPlaneFlow":
-                            if st["method"] == "integrated":
-                                return flat(complex(obj.integrated_flow(a)))
-                            return flat([complex(z) for z in obj.differential_flow(a, st["bins"], st["sel"])])
-                        if st["method"] == "integrated":
-                            r = obj.integrated_flow(a, b, st["self_corr"])
-                            return [float(r[0]), float(r[1])]
-                        r = obj.differential_flow(a, st["bins"], st["sel"], b, st["self_corr"])
-                        return flat([(t[0], t[1]) for t in r])
-                    except Exception as e:
-                        return "raises " + type(e).__name__
-            hist = [x["op"] if x["op"] != "call" else x["est"][:2] + ":" + x["method"][:4] for x in steps[:i + 1]]
+            def do(obj, a, b, form=form):
+                a, b, bins, sel, sc = _apply_fault(fault, a, b, st.get("bins"), st.get("sel"), st.get("self_corr"))
+                if name == "ReactionPlaneFlow":
+                    vals = [a] if st["method"] == "integrated" else [a, bins, sel]
+                else:
+                    vals = [a, b, sc] if st["method"] == "integrated" else [a, bins, sel, b, sc]
+                strict = bool(fault) and fault["kind"] == "warnings"
+                try:
+                    with warnings.catch_warnings(), np.errstate(**({} if strict else dict(all="ignore"))):
+                        warnings.simplefilter("error" if strict else "ignore")
+                        r = api(obj, name, method, vals, form)
+                    if name == "ReactionPlaneFlow":
+                        return flat(complex(r)) if st["method"] == "integrated" else flat([complex(z) for z in r])
+                    if st["method"] == "integrated":
+                        return [float(r[0]), float(r[1])]
+                    return flat([(t[0], t[1]) for t in r])
+                except Exception as e:
+                    return "raises " + type(e).__name__
+            hist = [x["op"] if "est" not in x else x["est"][:2] + ":" + x["method"][:4] +
+                    ("!" + x["fault"]["kind"] if x.get("fault") else "") for x in steps[:i + 1]]
             snap = snapshot({f"sample {k}": v for k, v in ws.items()})
+            before = observe(objs[key])
             got = do(objs[key], flow, ref)
+            after = observe(objs[key])
             m = modified(snap)
             if not m:
                 # the live content must also still be what the harness put there
@@ -1164,16 +1249,122 @@ def run_history(steps, stop_at_first=True):
                 return (f"input-modified:{name}:{method}:{m[0]}",
                         f"step {i}: {name}{ctor}.{method} modified the caller's particle lists: {m[1]} (history {hist})",
                         dict(expected="arguments unchanged", observed=m[1], step=i))
-            exp = do(_new(name, *ctor), cf, cr)
+            if isinstance(got, str) and before != after:
+                return (f"error-path:object-changed-by-failed-call:{name}.{method}",
+                        f"step {i}: {name}{ctor}.{method} failed ({got}, fault {fault}) and left the object changed: "
+                        f"{_first_diff(before, after)} (history {hist})",
+                        dict(expected=before[:400], observed=after[:400], step=i))
+            # the reference call is written with every argument as a keyword, the judged call in the step's form
+            exp = do(construct(name, ctor, (0, False)), cf, cr, form=(0, False))
+            if not _same_result(got, exp) and (form != (0, False) or cform != (0, False)):
+                same_form = do(construct(name, ctor, cform), _rebuild(mirror[fs]) if rs != fs else cf, cr, form=form)
+                if _same_result(got, same_form) and rs == fs:
+                    args, kwargs = bind(name, method, [None] * len(SIG[(name, method)]), form or (0, False))
+                    return (f"call-form:{name}.{method}",
+                            f"step {i}: {name}{ctor}.{method} called with {len(args)} positional argument(s) in the documented "
+                            f"order{' and defaults omitted' if form and form[1] else ''} (constructor form {cform}) gives {got}, "
+                            f"the same call with every argument passed by keyword gives {exp} (history {hist})",
+                            dict(expected=exp, observed=got, step=i))
             if not _same_result(got, exp):
-                return (f"instance-reuse-{name}-{method}",
-                        f"step {i}: {name}{ctor}.{method} on the long-lived object and the live lists gives {got}, a fresh "
-                        f"object on a sample rebuilt from the harness's mirror of the same content gives {exp} "
-                        f"(history of {i + 1} steps: {hist})",
+                after_error = any(x for x in failed if x[0] == name)
+                k_ = f"instance-reuse-after-error-{name}-{method}" if after_error else f"instance-reuse-{name}-{method}"
+                return (k_,
+                        f"step {i}: {name}{ctor}.{method}{' (fault ' + str(fault) + ')' if fault else ''} on the long-lived "
+                        f"object and the live lists gives {got}, a fresh object on a sample rebuilt from the harness's mirror "
+                        f"of the same content gives {exp} (history of {i + 1} steps: {hist})",
                         dict(expected=exp, observed=got, step=i))
+            if isinstance(got, str):
+                failed.add(key)
+            if fault:
+                o = f"{fault['kind']}->{got if isinstance(got, str) else 'returned'}"
+                OUTCOMES[o] = OUTCOMES.get(o, 0) + 1
         else:
             raise ValueError("unknown step " + op)
     return None
+
+
+OUTCOMES = {}
+
+
+class _Junk:
+    """an element of the wrong type"""
+
+
+def _pos(n, where):
+    return 0 if where == "first" or n <= 1 else n - 1 if where == "last" else n // 2
+
+
+def _apply_fault(fault, a, b, bins, sel, sc):
+    """the arguments of a call that is meant to fail; the caller's lists are never touched (copies are damaged)"""
+    if not fault or fault["kind"] == "warnings":
+        return a, b, bins, sel, sc
+    k = fault["kind"]
+    if k == "arg":
+        w = fault["which"]
+        if w == "bins-not-list":
+            bins = "not_a_list"
+        elif w == "sel-not-str":
+            sel = 123
+        elif w == "sel-invalid":
+            sel = "invalid_value"
+        elif w == "self_corr-not-bool":
+            sc = "not_a_bool"
+        return a, b, bins, sel, sc
+    target = b if fault.get("target") == "ref" and b is not None else a
+    same = a is b
+    bad = list(target)
+    if bad:
+        i = _pos(len(bad), fault["event"])
+        if k == "event-type":
+            bad[i] = None
+        else:  # wrong element inside an event
+            ev = list(bad[i])
+            junk = {"str": "particle", "none": None, "int": 7, "object": _Junk()}[fault["what"]]
+            if ev:
+                ev[_pos(len(ev), fault["particle"])] = junk
+            else:
+                ev = [junk]
+            bad[i] = ev
+    else:
+        bad = [None]
+    if same:
+        return bad, bad, bins, sel, sc
+    return (a, bad, bins, sel, sc) if target is b else (bad, b, bins, sel, sc)
+
+
+def observe(obj, depth=0):
+    """everything observable of an estimator object: instance attributes and non-callable class attributes"""
+    def canon(x, d):
+        if d > 4:
+            return "..."
+        if isinstance(x, (bool, int, str, type(None))):
+            return repr(x)
+        if isinstance(x, float):
+            return repr(x)
+        if isinstance(x, complex):
+            return repr(x)
+        if isinstance(x, np.ndarray):
+            return "nd" + repr(x.shape) + repr(x.tolist())[:2000]
+        if isinstance(x, np.generic):
+            return repr(x.item())
+        if isinstance(x, dict):
+            return "{" + ",".join(f"{canon(k, d + 1)}:{canon(v, d + 1)}" for k, v in sorted(x.items(), key=lambda kv: repr(kv[0]))) + "}"
+        if isinstance(x, (list, tuple)):
+            return "[" + ",".join(canon(v, d + 1) for v in x[:400]) + (f",..{len(x)}" if len(x) > 400 else "") + "]"
+        if hasattr(x, "data_") and isinstance(getattr(x, "data_"), np.ndarray):
+            return "P" + repr(x.data_.tolist())
+        if hasattr(x, "__dict__"):
+            return type(x).__name__ + canon(vars(x), d + 1)
+        return type(x).__name__
+    inst = canon(vars(obj), 0)
+    cls = {k: v for k, v in vars(type(obj)).items()
+           if not k.startswith("__") and not callable(v) and not isinstance(v, (staticmethod, classmethod, property))}
+    return inst + "|" + canon(cls, 0)
+
+
+def _first_diff(a, b):
+    j = next((k for k, (x, y) in enumerate(zip(a, b)) if x != y), min(len(a), len(b)))
+    return f"before ...{a[max(0, j - 60):j + 60]}... after ...{b[max(0, j - 60):j + 60]}..."
 
 
 def _same_result(a, b):
@@ -1203,7 +1394,8 @@ def gen_history(rng, scripted=None):
             ctors[e] = [[n]]
         else:
             ws_ = [rng.choice(["pT", "pT2", "pTn"]), rng.choice(WEIGHTS)]
-            ctors[e] = [[n, ws_[0], rng.choice([0.0, 0.1])], [n, ws_[1], rng.choice([0.0, 0.5])]]
+            ctors[e] = [[n, ws_[0], 0.1 if scripted else rng.choice([0.0, 0.1])],
+                        [n, ws_[1], 0.5 if scripted else rng.choice([0.0, 0.5])]]
     steps = []
     kinds = list(SAMPLE_KINDS)
     cur = {"kind": rng.choice(["small", "dilute-weak"]) if scripted is None else "dilute-weak"}
@@ -1213,7 +1405,7 @@ def gen_history(rng, scripted=None):
 
     def call(toggle):
         e = rng.choice(ests)
-        ctor = ctors[e][toggle % len(ctors[e])] if scripted else rng.choice(ctors[e])
+        ctor = ctors[e][(toggle // 2) % len(ctors[e])] if scripted else rng.choice(ctors[e])
         method = ("integrated", "differential")[toggle % 2] if scripted else rng.choice(["integrated", "differential"])
         sel = rng.choice(DOCUMENTED)
         lo, hi = (0.0, 3.2) if sel == "pT" else (-2.2, 2.2)
@@ -1221,7 +1413,34 @@ def gen_history(rng, scripted=None):
         if rng.random() < 0.25:
             bins = [-1000.0, 1000.0]
         steps.append(dict(op="call", est=e, ctor=ctor, method=method, flow="A", ref="A",
-                          self_corr=(toggle // 2) % 2 == 0 if scripted else rng.random() < 0.5, bins=bins, sel=sel))
+                          self_corr=(toggle // 4) % 2 == 0 if scripted else rng.random() < 0.5, bins=bins, sel=sel,
+                          form=[rng.randint(0, 6), rng.random() < 0.5], ctor_form=[rng.randint(0, 3), rng.random() < 0.5]))
+
+    FAULTS = [dict(kind="arg", which="bins-not-list"), dict(kind="arg", which="sel-not-str"),
+              dict(kind="arg", which="sel-invalid"), dict(kind="arg", which="self_corr-not-bool"),
+              dict(kind="element", target="flow", event="first", particle="first", what="str"),
+              dict(kind="element", target="flow", event="middle", particle="middle", what="none"),
+              dict(kind="element", target="flow", event="last", particle="last", what="object"),
+              dict(kind="element", target="ref", event="last", particle="middle", what="int"),
+              dict(kind="element", target="ref", event="first", particle="last", what="object"),
+              dict(kind="event-type", target="flow", event="middle"), dict(kind="event-type", target="ref", event="last"),
+              dict(kind="warnings")]
+
+    def bad(toggle, fi=None):
+        """a call that is meant to fail: up front (invalid argument), at the first / a middle / the last element of
+        the data (wrong type), or where the code warns (warnings as errors)"""
+        call(toggle)
+        st = steps[-1]
+        f = dict(FAULTS[(toggle if fi is None else fi) % len(FAULTS)] if scripted else rng.choice(FAULTS))
+        if f["kind"] == "arg":
+            if st["est"] == "ReactionPlaneFlow" and f["which"] == "self_corr-not-bool":
+                f["which"] = "sel-invalid"
+            if f["which"] != "self_corr-not-bool":
+                st["method"] = "differential"
+        if f["kind"] == "element" and not scripted:
+            f.update(event=rng.choice(["first", "middle", "last"]), particle=rng.choice(["first", "middle", "last"]),
+                     what=rng.choice(["str", "none", "int", "object"]))
+        st["op"], st["fault"] = "bad-call", f
 
     def mutate(kind):
         evs = state["A"]
@@ -1259,20 +1478,30 @@ def gen_history(rng, scripted=None):
             state["A"] = [list(e) for e in content2]
     if scripted:
         t = 0
-        for m in ["reverse", "rotate", "perm-particles", "perm-events", "weights", "replace-event",
-                  "refill", "refill", "build", "refill"]:
+        for j, m in enumerate(["reverse", "rotate", "perm-particles", "perm-events", "weights", "replace-event",
+                               "refill", "refill", "build", "refill", "refill", "reverse"]):
+            # every fault kind with integrated and differential flow, on both long-lived objects in turn
+            bad(t, j)
+            bad(t + 1, j)
             call(t); t += 1
             call(t); t += 1
             mutate(m)
+        bad(t, 11)
         call(t)
         call(t + 1)
+        call(t + 2)
+        call(t + 3)
     else:
         moves = ["reverse", "perm-events", "perm-particles", "rotate", "replace-event", "weights", "refill", "refill", "build"]
         for t in range(rng.randint(4, 9)):
+            if rng.random() < 0.35:
+                bad(t)
             call(t)
             if rng.random() < 0.5:
                 call(t + 1)
             mutate(rng.choice(moves))
+        if rng.random() < 0.5:
+            bad(1)
         call(0)
     return steps
 
@@ -1324,9 +1553,12 @@ def search_histories(ctx, budget_s):
         nonlocal nh
         nh += 1
         ctx.count("oracle/history/" + tag)
-        ctx.count("oracle/history/calls", sum(1 for x in steps if x["op"] == "call"))
+        ctx.count("oracle/history/calls", sum(1 for x in steps if x["op"] in ("call", "bad-call")))
         for x in steps:
-            if x["op"] != "call":
+            if x["op"] == "bad-call":
+                f = x["fault"]
+                ctx.count("oracle/history/error-path/" + f["kind"] + ("/" + f.get("which", f.get("event", "")) if f["kind"] != "warnings" else ""))
+            elif x["op"] != "call":
                 ctx.count("oracle/history/move/" + x["op"] + ("/" + x["kind"] if "kind" in x else ""))
         ctx.case(("history", tag, nh, len(steps)), True)
         try:
@@ -1347,6 +1579,12 @@ def search_histories(ctx, budget_s):
     while time.time() - t0 < budget_s and len(found) < 4:
         one(gen_history(ctx.rng), "random")
     ctx.cov["oracle_histories"] = nh
+    for k, v in FORM_COUNT.items():
+        ctx.count("call-form/" + k, v)
+    FORM_COUNT.clear()
+    for k, v in OUTCOMES.items():
+        ctx.count("oracle/history/error-path-outcome/" + k, v)
+    OUTCOMES.clear()
 
 
 def search(ctx, budget_s):
@@ -1368,7 +1606,7 @@ def search(ctx, budget_s):
             _report(ctx, c["case"], c["aux"], res)
     for key, what, detail in oracle_reuse_tables():
         ctx.violation(key, what, dict(input=detail, how_to_replay="./check C12 --replay <this file>"))
-    search_histories(ctx, 90 if ctx.thorough else 10)
+    search_histories(ctx, 90 if ctx.thorough else 8)
     t0 = time.time()
     found = set()
     limit = 4000 if ctx.thorough else 250
@@ -1464,8 +1702,8 @@ def oracle_reuse_tables():
             parts = mk(data)
             with np.errstate(all="ignore"):
                 if c in ("EventPlaneFlow", "ScalarProductFlow"):
-                    return obj.differential_flow(parts, [0.0, 1.0, 4.0], s, parts)
-                return obj.differential_flow(parts, [0.0, 1.0, 4.0], s)
+                    return api(obj, c, "differential_flow", [parts, [0.0, 1.0, 4.0], s, parts])
+                return api(obj, c, "differential_flow", [parts, [0.0, 1.0, 4.0], s])
         try:
             obj = _new(c)
         except Exception:
